@@ -220,7 +220,7 @@ class Gen:
         f = self.fresh("f")
         params = []
         inner = dict(ctx, loop=False, func=True, vars=dict(ctx["vars"]))
-        np_ = r.randint(0, 3)
+        np_ = r.choice([0, 1, 2, 2, 3, 3, 4])
         sig = []
         for j in range(np_):
             a = self.fresh("a")
@@ -237,7 +237,9 @@ class Gen:
             sig.append(rest)
         body = self.block(inner, depth - 1)
         if rest:
-            body.insert(0, "append(log, length(%s))" % rest)
+            body.insert(0, "append(log, %s)" % rest)
+        # what each parameter was bound to is part of the trace
+        body.insert(0, "append(log, [%s])" % ", ".join(a for a, _ in params))
         if r.random() < 0.35:
             # return a closure capturing a local counter
             c = self.fresh("c")
@@ -257,7 +259,7 @@ class Gen:
             return self.funcdef(ctx, 1)
         f, params, rest, kind = r.choice(ctx["funcs"])
         args = []
-        style = r.choice(["pos", "pos", "pos", "named", "named", "mixed", "mixed", "spread", "pipe", "pipe", "short", "long", "badname"])
+        style = r.choice(["pos", "pos", "pos", "named", "named", "mixed", "mixed", "subset", "subset", "subset", "spread", "pipe", "pipe", "short", "long", "badname"])
         self.features.add("call:" + style)
         vals = [self.intexpr(ctx, 1) for _ in params]
         if style == "pos":
@@ -269,6 +271,18 @@ class Gen:
         elif style == "mixed" and params:
             k = r.randint(0, len(params))
             args = vals[:k] + ["%s = %s" % (params[i][0], vals[i]) for i in range(k, len(params))]
+        elif style == "subset" and params:
+            # any subset of the parameters by name (in any order), the others positionally: a positional argument may have to
+            # pass over several consecutive parameters that are bound by name
+            named_idx = [i for i in range(len(params)) if r.random() < 0.55]
+            if len(params) >= 3 and r.random() < 0.5:
+                named_idx = list(range(r.randint(2, len(params) - 1)))     # a run of leading parameters by name, the rest positionally
+            pos_args = [vals[i] for i in range(len(params)) if i not in named_idx]
+            named_args = ["%s = %s" % (params[i][0], vals[i]) for i in named_idx]
+            r.shuffle(named_args)
+            args = pos_args + named_args if r.random() < 0.7 else named_args + pos_args
+            if r.random() < 0.2:
+                args = args + [self.intexpr(ctx, 0)]      # one argument too many: rest parameter or arity error
         elif style == "spread":
             args = ["...[%s]" % ", ".join(vals)]
         elif style == "short":
